@@ -100,8 +100,9 @@ def finish(prop, tier, seed, mod, joblist, results, lemmas, wall, verbose=False)
         "wall_s": round(wall, 2),
         "violations": len(viol),
     }
-    os.makedirs(os.path.join(VERIF, "evidence"), exist_ok=True)
-    with open(os.path.join(VERIF, "evidence", f"{prop}.json"), "w") as f:
+    evdir = os.environ.get("VERIF_EVIDENCE_DIR") or os.path.join(VERIF, "evidence")
+    os.makedirs(evdir, exist_ok=True)
+    with open(os.path.join(evdir, f"{prop}.json"), "w") as f:
         json.dump(ev, f, indent=1, default=str)
     lines += known_lines
     seen = set()
